@@ -1036,6 +1036,40 @@ def rule_union_tag(ctx, cd, which: str, rule_id: str):
             ctx.ob(rule_id, t.rel, f"{lang}: {mac.name}: union option loop counts the options from zero (loop.index0), unfiltered", ok,
                    "" if ok else f"loop.{sorted(set(pos) - {'index0'})} used / loop filtered: the tag on the wire is not the index of the option", lp.lineno)
     ctx.floor(rule_id, n, 2)
+    # the places that define what the position of an option is called: C select / is helpers, C++ IndexOf constants
+    k = 0
+    for lang, fname, union_only in (("c", "definitions.j2", False), ("cpp", "_fields_as_union.j2", True), ("cpp", "_fields_as_variant.j2", True)):
+        t = cd.ts.get(lang, fname)
+        for node, stack in j2front.walk(t.ast):
+            if not (isinstance(node, N.Getattr) and isinstance(node.node, N.Name) and node.node.name == "loop"
+                    and node.attr in ("index", "index0", "revindex", "revindex0", "length")):
+                continue
+            loops_ = [g.node for g in stack if g.kind == "for"]
+            if not loops_ or "fields" not in xs(loops_[-1].iter):
+                continue
+            if not (union_only or any("UnionType" in e and pol for e, pol in j2front.facts(stack))):
+                continue
+            k += 1
+            lp = loops_[-1]
+            ok = node.attr == "index0" and lp.test is None and xs(lp.iter).endswith((".fields_except_padding", ".iterate_fields_with_offsets()"))
+            ctx.ob(rule_id, t.rel, f"{lang}: {fname}: option position printed in the loop over `{xs(lp.iter)}` is loop.index0 of the unfiltered option list", ok,
+                   "" if ok else f"loop.{node.attr} over `{xs(lp.iter)}`" + (" (filtered)" if lp.test is not None else "") +
+                   ": the name of an option no longer stands for its tag on the wire", getattr(node, "lineno", None))
+    ctx.floor(rule_id + ":definitions", k, 4)
+    # C++: an option is chosen when the index *equals* its IndexOf constant
+    for which_ in (which,):
+        t = cd.tmpl("cpp", which_)
+        for mac in cd.ts.macros(t).values():
+            for node, stack in j2front.walk(mac):
+                if isinstance(node, N.For) and xs(node.iter).endswith(".iterate_fields_with_offsets()") and \
+                        any("UnionType" in e and pol for e, pol in j2front.facts(stack)):
+                    txt = "".join(d.data if isinstance(d, N.TemplateData) else "{" + xs(d) + "}" for o in node.body if isinstance(o, N.Output) for d in o.nodes)
+                    ms = re.findall(r"IndexOf::\{[^}]*\} ?(==|!=|<=?|>=?) ?\{(\w+)\}|\{(\w+)\} ?(==|!=|<=?|>=?) ?VariantType::IndexOf::", txt)
+                    if not ms:
+                        continue
+                    ok = all((a or d_) == "==" for a, _b, _c, d_ in ms)
+                    ctx.ob(rule_id, t.rel, f"cpp: {mac.name}: an option is taken when the index equals its IndexOf constant", ok,
+                           "" if ok else f"comparison operators {[(a or d_) for a, _b, _c, d_ in ms]}", node.lineno)
 
 
 # ---- what the padding macro itself emits -------------------------------------------------------------------------------------
